@@ -103,6 +103,20 @@ def check_purity(name, f, args, kw, deterministic, reseed=None):
             fails.append(Failure('%s:second-call-differs' % name, 'calling %s twice with the same argument objects gives different results' % name))
     except Exception as e:
         fails.append(Failure('%s:second-call-fails:%s' % (name, type(e).__name__), 'the first call succeeded, the second call with the same argument objects raised %r' % (e,)))
+    # a frozen graph (nx.freeze) refuses structural modification: a call that edits the caller's graph and puts it back
+    # afterwards passes the snapshot comparison but not this one
+    if not fails and any(isinstance(a, nx.Graph) for a in args):
+        args3 = [nx.freeze(a.copy()) if isinstance(a, nx.Graph) else a for a in args]
+        try:
+            if reseed:
+                reseed()
+            with np.errstate(all='ignore'):
+                f(*args3, **kw)
+        except nx.NetworkXError as e:
+            if 'rozen' in str(e):
+                fails.append(Failure('%s:modifies-graph-structure(frozen-graph)' % name, '%s raised %r on a frozen copy of a graph it accepts' % (name, e)))
+        except Exception:
+            pass
     return fails, True
 
 
